@@ -9,7 +9,7 @@ import (
 func init() { register("C13", propC13) }
 
 func propC13(c *Ctx) {
-	c.Explanation = "That every request is answered while fewer than ten are pending depends on goroutine scheduling, and byte equality of payloads at run time is behavioural; both are NOT decided. Decided are the structural conditions: (I1) the IPv4 echo queue has capacity exactly 10 and one replier goroutine per endpoint; the enqueue is a non-blocking select (the NIC goroutine never blocks on it) and the drop branch releases the cloned route; what is queued is a clone of the inbound route and a COPY (ToView) of the whole datagram body after exactly the 4 fixed ICMP bytes - identifier, sequence number and all payload chunks, not just the first view, and not an alias of the receive buffer; this happens only for type == echo with at least 6 bytes in the first view. (I2) the replier answers each dequeued request exactly once with code 0 and releases the route. (I3) sendPing4: type = echo reply, the first bytes of the body (identifier) go to header bytes 4.., the rest is the payload, checksum = complement of the sum over the header (checksum field still zero in the freshly prepended buffer) continued over the payload, one WritePacket on the given route with protocol ICMPv4. (I4) ICMPv6: the 8-byte echo header is copied from the request, the type is then set to echo reply, the payload is the request's body after those 8 bytes, checksum over source/destination of the inbound route, length, next-header 58, payload and the header with the checksum field zeroed; sent on the inbound route. The inbound route is built with local = the packet's destination (the pinged address) and remote = its source, and Clone keeps both, so the reply goes to the requester from the pinged address. (I5) echo-reply type values are written nowhere else in the module, sendPing4 is called only by the replier and the queue is fed only by handleICMP: no reply without a request. That requests for foreign addresses never reach handleICMP is C09. (I6) the IPv4 reassembly key covers id, protocol and every byte of both addresses (shared with C08/F4): a fragmented request is reassembled from its own requester's fragments only. (I7) the masked address match behind 'is this address served here' (shared with C09/D5). NOT decided: scheduling (answered while < 10 pending), at-most-once under link-level duplication, fragmentation of large replies."
+	c.Explanation = "That every request is answered while fewer than ten are pending depends on goroutine scheduling, and byte equality of payloads at run time is behavioural; both are NOT decided. Decided are the structural conditions: (I1) the IPv4 echo queue has capacity exactly 10 and one replier goroutine per endpoint; the enqueue is a non-blocking select (the NIC goroutine never blocks on it) and the drop branch releases the cloned route; what is queued is a clone of the inbound route and a COPY (ToView) of the whole datagram body after exactly the 4 fixed ICMP bytes - identifier, sequence number and all payload chunks, not just the first view, and not an alias of the receive buffer; this happens only for type == echo with at least 6 bytes in the first view. (I2) the replier answers each dequeued request exactly once with code 0 and releases the route. (I3) sendPing4: type = echo reply, the first bytes of the body (identifier) go to header bytes 4.., the rest is the payload, checksum = complement of the sum over the header (checksum field still zero in the freshly prepended buffer) continued over the payload, one WritePacket on the given route with protocol ICMPv4. (I4) ICMPv6: the 8-byte echo header is copied from the request, the type is then set to echo reply, the payload is the request's body after those 8 bytes, checksum over source/destination of the inbound route, length, next-header 58, payload and the header with the checksum field zeroed; sent on the inbound route. The inbound route is built with local = the packet's destination (the pinged address) and remote = its source, and Clone keeps both, so the reply goes to the requester from the pinged address. (I5) echo-reply type values are written nowhere else in the module, sendPing4 is called only by the replier and the queue is fed only by handleICMP: no reply without a request. That requests for foreign addresses never reach handleICMP is C09. (I6) the IPv4 reassembly key covers id, protocol and every byte of both addresses (shared with C08/F4): a fragmented request is reassembled from its own requester's fragments only. (I7) the masked address match behind 'is this address served here' (shared with C09/D5). (I8) the IPv4 inbound path (shared with C08/F4). NOT decided: scheduling (answered while < 10 pending), at-most-once under link-level duplication, fragmentation of large replies."
 
 	i1 := c.Rule("I1", "K12 capacity + K11 non-blocking + K5 provenance", "IPv4 echo queue", 9)
 	if fn := c.Fn(i1, "(*ipv4.protocol).NewEndpoint"); fn != nil {
@@ -112,6 +112,8 @@ func propC13(c *Ctx) {
 	fragmentKeyRule(c, i6)
 
 	maskedMatchRule(c, "I7")
+	i8 := c.Rule("I8", "K9 site table (shared with C08/F4)", "the IPv4 layer hands the ICMP code exactly the datagram's payload (header by its own length, capped to the total length, fragments included)", 6)
+	ipv4InboundRule(c, i8)
 
 	i5 := c.Rule("I5", "K3 confinement", "no reply without a request", 3)
 	for _, v := range []struct{ setter, val, allowed string }{
@@ -147,4 +149,28 @@ func isConstTerm(s string) bool {
 		}
 	}
 	return true
+}
+
+// echoRouteRefRule: the inbound route cloned for an echo reply is a counted
+// reference on the pinged address's endpoint. It is released on every way out:
+// by handleICMP itself when the queue is full (the clone is made before the
+// non-blocking enqueue is attempted), by the replier after the reply otherwise.
+// A leak keeps a removed address alive (it keeps receiving packets and
+// answering pings). Shared by C13 (I1/I2) and C09 (D9).
+func echoRouteRefRule(c *Ctx, rule string) {
+	in := "buffer.VectorisedView.First($2)"
+	if fn := c.Fn(rule, "(*ipv4.endpoint).handleICMP"); fn != nil {
+		echo := []string{"!(builtin:len(" + in + ") < 4)", "!(builtin:len(" + in + ") < 6)", "(8 == header.ICMPv4.Type(" + in + "))"}
+		c.CheckSitesPresent(rule, fn, []SiteSpec{
+			{Kind: "store", Target: "ipv4.echoRequest.r", Args: []string{"new(ipv4.echoRequest)", "(*stack.Route).Clone($1)"}, Guards: echo, Exact: true, N: 1, Why: "the reply route is a clone of the inbound route (one more reference)"},
+			{Kind: "select", Args: []string{"blocking=false", "send $0.echoRequests <- new(ipv4.echoRequest)@2"}, Guards: echo, Exact: true, N: 1, Why: "non-blocking enqueue of exactly that request"},
+			{Kind: "call", Target: "(*stack.Route).Release", Args: []string{"&new(ipv4.echoRequest).r"}, Guards: append([]string{"!(0 == select#0)"}, echo...), Exact: true, N: 1, Why: "queue full: the clone is released"},
+		})
+	}
+	if fn := c.Fn(rule, "(*ipv4.endpoint).echoReplier"); fn != nil {
+		got := "<-$0.echoRequests#1"
+		c.CheckSitesPresent(rule, fn, []SiteSpec{
+			{Kind: "call", Target: "(*stack.Route).Release", Args: []string{"&new(ipv4.echoRequest).r"}, Guards: []string{got}, Exact: true, N: 1, Why: "the replier releases the route of every request it dequeued, whatever the send returned"},
+		})
+	}
 }
